@@ -2,6 +2,7 @@ package chain
 
 import (
 	"math/big"
+	"time"
 
 	"github.com/ethereum/go-ethereum/common"
 	ethcore "github.com/ethereum/go-ethereum/core"
@@ -43,15 +44,48 @@ func refBlockContext(env *EvmEnv) vm.BlockContext {
 	}
 }
 
+// frameTracer only collects addresses: created contracts and self-destructing contracts.
+type frameTracer struct {
+	created  []common.Address
+	destruct []common.Address
+}
+
+func (t *frameTracer) CaptureTxStart(uint64) {}
+func (t *frameTracer) CaptureTxEnd(uint64)   {}
+func (t *frameTracer) CaptureStart(env *vm.EVM, from, to common.Address, create bool, input []byte, gas uint64, value *big.Int) {
+	if create {
+		t.created = append(t.created, to)
+	}
+}
+func (t *frameTracer) CaptureEnd([]byte, uint64, time.Duration, error) {}
+func (t *frameTracer) CaptureEnter(typ vm.OpCode, from, to common.Address, input []byte, gas uint64, value *big.Int) {
+	switch typ {
+	case vm.CREATE, vm.CREATE2:
+		t.created = append(t.created, to)
+	case vm.SELFDESTRUCT:
+		t.destruct = append(t.destruct, from)
+	}
+}
+func (t *frameTracer) CaptureExit([]byte, uint64, error) {}
+func (t *frameTracer) CaptureState(uint64, vm.OpCode, uint64, uint64, *vm.ScopeContext, []byte, int, error) {
+}
+func (t *frameTracer) CaptureFault(uint64, vm.OpCode, uint64, uint64, *vm.ScopeContext, int, error) {}
+
+type Destructed struct {
+	Addr  common.Address
+	Nonce uint64
+}
+
 type EvmResult struct {
-	Err      error // consensus-level error (tx not applicable): treated as failure
-	Failed   bool
-	VMErr    string
-	Ret      []byte
-	GasUsed  uint64
-	Logs     []*ethtypes.Log
-	Created  common.Address
-	IsCreate bool
+	Created    []common.Address // addresses that hold code after the tx and were created in it
+	Destructed []Destructed     // contracts destroyed by the tx (with their nonce at that moment)
+	Err        error            // consensus-level error (tx not applicable): treated as failure
+	Failed     bool
+	VMErr      string
+	Ret        []byte
+	GasUsed    uint64
+	Logs       []*ethtypes.Log
+	IsCreate   bool
 }
 
 // RefExec runs the message on W. On failure W is reverted to its state before the call.
@@ -64,7 +98,8 @@ func RefExec(w *state.StateDB, env *EvmEnv, txhash common.Hash, txidx int, from 
 		toAddr = &a
 	}
 	msg := ethtypes.NewMessage(common.Address(from), toAddr, nonce, new(big.Int).Set(value), gas, new(big.Int).Set(gasPrice), big.NewInt(0), big.NewInt(0), data, nil, false)
-	evm := vm.NewEVM(refBlockContext(env), ethcore.NewEVMTxContext(msg), w, rigoevm.RIGOMainnetEVMCtrlerChainConfig, vm.Config{NoBaseFee: true})
+	tr := &frameTracer{}
+	evm := vm.NewEVM(refBlockContext(env), ethcore.NewEVMTxContext(msg), w, rigoevm.RIGOMainnetEVMCtrlerChainConfig, vm.Config{NoBaseFee: true, Debug: true, Tracer: tr})
 	res := &EvmResult{IsCreate: to == nil}
 	r, err := ethcore.ApplyMessage(evm, msg, env.GasPool)
 	if err != nil {
@@ -81,7 +116,19 @@ func RefExec(w *state.StateDB, env *EvmEnv, txhash common.Hash, txidx int, from 
 		res.VMErr = r.Err.Error()
 		return res
 	}
+	seen := map[common.Address]bool{}
+	for _, a := range tr.destruct {
+		if !seen[a] && w.HasSuicided(a) {
+			seen[a] = true
+			res.Destructed = append(res.Destructed, Destructed{Addr: a, Nonce: w.GetNonce(a)})
+		}
+	}
 	w.Finalise(true)
+	for _, a := range tr.created {
+		if len(w.GetCode(a)) > 0 || w.Exist(a) {
+			res.Created = append(res.Created, a)
+		}
+	}
 	res.Logs = w.GetLogs(txhash, common.Hash{})
 	return res
 }
